@@ -18,6 +18,12 @@ PredList = TList(PredT)
 KeySet = TSet(TKey)
 KeyList = TList(TKey)
 VALIDATE = z3.Function('validate_model_function', sym.FnS, sym.FnS)
+OTHER_CALLS = None
+
+
+def _mk_other():
+    global OTHER_CALLS
+    OTHER_CALLS = z3.Function('imputer_model_calls', TObj('Imputer').sort(), z3.IntSort(), z3.IntSort())
 
 
 def in_subset(fs, k):
@@ -35,12 +41,14 @@ def subset_empty(fs):
     return fs.n == 0
 
 
-cls('Imputer', file=F + 'base.py',
+cls('Imputer', file=F + 'base.py', opaque_inv=True,
     fields={'model_function': TFnRole('model'), 'values': InstT, 'sampling_strategy': TKey,
             'storage_object': TObj('Storage')},
     optional=['values', 'sampling_strategy', 'storage_object'],
     ghost={'kind': TInt},
     invariant={})
+
+_mk_other()
 
 fn('validate_model_function', None, kind='function', params={'model_function': TFnRole('model')}, pure=True,
    ret=TFnRole('model'), assume_only=True,
@@ -86,7 +94,10 @@ for variant, fst in (('', KeySet), ('#list', KeyList)):
        params={'feature_subset': fst, 'x_i': InstT, 'n_samples': TInt},
        requires={'n_nonneg': lambda c: c.a.n_samples >= 0},
        ensures=_iface_ensures, ret=PredList, modifies=[], may_fail=True, assume_only=True,
-       ghost_out={'zs': (XList, None)}, counts={'impute': lambda c: 1},
+       ghost_out={'zs': (XList, None)},
+       # model evaluations: n_samples for the marginal imputer, one for the default imputer, unknown (>= 0) otherwise
+       counts={'impute': lambda c: 1,
+               'model': lambda c: ite(c.old.kind == 1, c.a.n_samples, ite(c.old.kind == 0, 1, OTHER_CALLS(c.old.term, c.a.n_samples)))},
        notes='interface contract: proved for Default/MarginalImputer.impute, assumed for a user-supplied imputer')
 
 fn('BaseImputer.__init__', F + 'base.py', kind='init', self_cls='Imputer', inline=True)
